@@ -18,7 +18,9 @@ THEOREMS = ["c06_override_names", "c06_entry_point_set", "c06_override_independe
             "c06_forwarding", "c06_reply_forwarding"]
 
 
-def make_case(overrides, has_inst, has_migrate, reply_fn, replies, generic, given=None, order=None):
+def make_case(overrides, has_inst, has_migrate, reply_fn, replies, generic, given=None, order=None, more_replies=0):
+    """more_replies: further reply methods (replies feature only): the reply entry point exists whenever at least one
+    reply handler is declared, however many there are"""
     c = Contract("Ctr", generics=["T"] if generic else [])
     for k in overrides:
         c.attrs.append(sv_override(k, "crate::custom_%s" % k, "Custom%sMsg" % k.capitalize()))
@@ -35,6 +37,9 @@ def make_case(overrides, has_inst, has_migrate, reply_fn, replies, generic, give
         if replies:
             c.items.append(Method(reply_fn, [sv_msg("reply", reply_on="always")],
                                   [Arg("res", P("SubMsgResult")), Arg("p", P("Binary"))], ret, ctx_ty="ReplyCtx"))
+            for k in range(more_replies):
+                c.items.append(Method("%s_more%d" % (reply_fn, k), [sv_msg("reply", reply_on=["success", "error"][k % 2], handlers=["other%d" % (k // 2)])],
+                                      ([Arg("err", P("String"))] if k % 2 else []) + [Arg("p", P("Binary"))], ret, ctx_ty="ReplyCtx"))
         else:
             c.items.append(Method(reply_fn, [sv_msg("reply")], [Arg("reply", P("Reply"))], ret, ctx_ty="ReplyCtx"))
     if order == "reversed":
@@ -51,7 +56,7 @@ def make_case(overrides, has_inst, has_migrate, reply_fn, replies, generic, give
         "true" if replies else "false", 1 if generic else 0, ngiven)
     desc = {"overrides": list(overrides), "has_inst": has_inst, "has_migrate": has_migrate, "reply_fn": reply_fn,
             "replies_feature": replies, "generic": generic, "given_generics": ngiven,
-            "method_order": [m.name for m in c.items]}
+            "method_order": [m.name for m in c.items], "more_replies": more_replies}
     return {"desc": desc, "attr": attr, "item": c.rust_impl(), "coq": coq}
 
 
@@ -169,6 +174,9 @@ def gen_cases(run, rng, thorough):
                             if has_migrate or reply_fn:
                                 cases.append(make_case(order, True, has_migrate, reply_fn, replies, generic, order="reversed"))
                                 cases.append(make_case(order, True, has_migrate, reply_fn, replies, generic, order=rng))
+                            if reply_fn and replies:
+                                cases.append(make_case(order, True, has_migrate, reply_fn, replies, generic, order=rng,
+                                                       more_replies=rng.choice([1, 2, 3])))
     run.exhaustive = True
     # ordered lists with duplicates, rule-breaking programs
     extra = 400 if thorough else 60
